@@ -219,18 +219,39 @@ def expected_hybrid(g, sh, i):
     return M @ block_diag(np.eye(1), g["dp"][i], g["dd"][i]) @ M.T
 
 
-def shell_content(sh):
-    """{l: number of complete-l multiplicity} is not defined for sub-shells; returns the list of l of the *full* shells whose
-    direct sum is the span of sh (s=0, p=1, d=2, f=3), or None if the span is not a sum of full shells"""
-    full = {"s": [0], "p": [1], "d": [2], "f": [3], "sp3": [0, 1]}
-    return full.get(sh)
-
-
 def rotation_angle(R):
     """(det, cos theta) of an O(3) matrix"""
     det = float(np.sign(np.linalg.det(R)))
     c = (np.trace(R) * det - 1.0) / 2.0
     return det, float(min(1.0, max(-1.0, c)))
+
+
+def np_rep(R):
+    """harness-side floating-point s/p/d matrices of an O(3) matrix in the specification's order (OrbRep!DP, DD); used only as
+    a domain filter (is the span of a hybrid preserved?) and for numeric_only comparisons on random rotations"""
+    R = np.asarray(R, dtype=float)
+    perm = [2, 0, 1]
+    dp = R[np.ix_(perm, perm)]
+    s3 = SQ3
+    Q = [np.diag([-s3 / 6, -s3 / 6, s3 / 3]), None, None, np.diag([0.5, -0.5, 0.0]), None]
+    for n, (a, b) in ((1, (0, 2)), (2, (1, 2)), (4, (0, 1))):
+        q = np.zeros((3, 3))
+        q[a, b] = q[b, a] = 0.5
+        Q[n] = q
+    T = [R @ q @ R.T for q in Q]
+    dd = np.array([[2 * np.trace(Q[i] @ T[j]) for j in range(5)] for i in range(5)])
+    return dict(dp=[dp], dd=[dd])
+
+
+def span_preserved(sh, R, tol=1e-9):
+    """numeric version of OrbRep!Preserves: D(R) maps the span of the shell onto itself"""
+    from scipy.linalg import block_diag
+    M = hybrid_matrix(sh)
+    if M is None:
+        return True          # f: a full shell
+    g = np_rep(R)
+    X = block_diag(np.eye(1), g["dp"][0], g["dd"][0]) @ M.T
+    return bool(np.abs(X - M.T @ (M @ X)).max() < tol)
 
 
 def character(l, R):
